@@ -48,6 +48,14 @@ CLAIMED = {
             "and signal handlers are judged by the same monitor.",
             "Trusted: TLC, Terminal.tla mode tracking, vf/loops.py doubles, the forked session runner, vf/term.py tokeniser.",
             "DESIGN.md §4 C12"),
+    "C05": ("TLA+ reference decoder InputDecoderOps.tla over the frozen documented key table InputTable.tla; fragmentation model "
+            "InputDecoder.tla (parse_input's keep-the-tail algorithm, every stream over an alphabet x every cut) model-checked by TLC; TLC trace "
+            "validation (InputTrace.tla) of the real Screen.parse_input: whole-stream result against the reference, fragmented deliveries against it",
+            "TLC proves chunk-invariance of the decoding algorithm for all bounded streams and cuts, and judges every recorded delivery of the real "
+            "decoder (all 468 table sequences, mouse/CPR reports, characters, garbage, truncations, every cut of short streams, random cuts and "
+            "timeouts, three encoding modes) for names/coordinates, never-raises, byte accounting and fragmentation invariance.",
+            "Trusted: TLC, InputTable.tla (frozen at the pinned commit), the reference decoder, the Rig around Screen.parse_input.",
+            "DESIGN.md §4 C05"),
 }
 
 NOT_APPLICABLE = {}
